@@ -1,6 +1,7 @@
 # C15 - Broken pipes, bad bytes and errors are handled cleanly at every point.
 # Model: Engine.v (writer trace under the oracle fail_at k) + Pipe.v (CSVWriter broken_pipe logic); theorems: Props/C15.v.
 # Runtime behaviour observed only (partial): TextIOWrapper buffering, the UTF-8 decoder, file descriptors.
+import importlib
 import json
 import lib
 import qgen
@@ -308,8 +309,13 @@ def run(ctx):
                 '(b2) a real OS pipe whose reader goes away after 0 / 7 / 9000 bytes, outputs of 3 to 2600 lines (thorough: to 20000) written through the usual buffered text stream in a child process: no error, the bytes received are a prefix of the output; (d) /proc/self/fd before/after query_csv on 14 '
                 'success/parsing/runtime/IO/syntax scenarios (every file object opened by the front-end is tracked and must be closed); non-trivial = distinct case with a refused write / broken pipe / invalid byte / any fd scenario')
 
+    # (c2)/(c3) the decode clause by KIND of malformed sequence through every reading path of both ports (bulk / stream / iterator) and with
+    #           the table on the standard input under every codec / error handler sys.stdin may carry (props/c15dec.py)
+    importlib.import_module('props.c15dec').run(ctx)
 
 def replay(ctx, case):
+    if case.get('part') == 'c15dec':
+        return importlib.import_module('props.c15dec').replay(ctx, case)
     mode = case.get('mode')
     if mode == 'engine':
         e = ec.canon_model(lib.run_model(300, [ec.model_arg(case)], shards=1)[0])
